@@ -146,8 +146,17 @@ def build_message(kind, peer, idx, salt):
         name = b"zq" + bytes(97 + b % 26 for b in d[:8])  # never a protocol command, no parser, no handler
         # the name's length varies over the whole 12-byte field: 10 mostly, else 2, 3, 11 or 12 (12 leaves no padding NUL)
         name = (name + b"yx")[: (10, 10, 10, 10, 12, 12, 11, 3, 2)[(salt >> 12) % 9]]
+        if _digit_name(salt) and len(name) >= 3:
+            # command names are printable ASCII, not letters only (sendaddrv2, addrv2): a digit at the end, one inside
+            name = name[:-1] + bytes([48 + d[9] % 10])
+            if len(name) >= 6:
+                name = name[:4] + bytes([48 + d[10] % 10]) + name[5:]
         return name, d[8 : 8 + salt % 9]
     raise ValueError(kind)
+
+
+def _digit_name(salt):
+    return (salt >> 15) % 3 == 0
 
 
 class _Any:
@@ -474,6 +483,8 @@ def _case_labels(peers):
         for k, salt in m:
             if k == "unknown" and (salt >> 12) % 9 in (4, 5):
                 out.append("nt:case/unknown-command-fills-12-bytes")
+            if k == "unknown" and _digit_name(salt) and (salt >> 12) % 9 != 8:
+                out.append("nt:case/unknown-command-with-digits")
             if k in ("inv", "addr") and _shared(salt):
                 shared.append((k, (salt >> 18) % 2))
             elif k in ("inv", "addr") and (salt >> 8) % (8 * len(ADDR_BIG if k == "addr" else INV_BIG)) < len(ADDR_BIG if k == "addr" else INV_BIG):
@@ -804,7 +815,7 @@ def targets(tier):
             strategy=lambda tier: sampled_cases(),
             budget={"quick": 4000, "thorough": 50000},
             required=[NT, "nt:exec/library-logging-at-its-own-level", "case:peers-2", "case:peers-3", "nt:case/addr-boundary-count", "nt:case/inv-boundary-count",
-                      "nt:case/addr-1000-entries", "nt:case/unknown-command-fills-12-bytes", "nt:case/byte-stream-delivery", "case/per-message-delivery", "nt:case/same-inv-or-addr-content-sent-more-than-once", "net:mainnet", "net:testnet", "net:regtest"] + ["kind:" + k for k in KINDS],
+                      "nt:case/addr-1000-entries", "nt:case/unknown-command-fills-12-bytes", "nt:case/unknown-command-with-digits", "nt:case/byte-stream-delivery", "case/per-message-delivery", "nt:case/same-inv-or-addr-content-sent-more-than-once", "net:mainnet", "net:testnet", "net:regtest"] + ["kind:" + k for k in KINDS],
         ),
         Target(
             "walks-3x2",
